@@ -57,24 +57,14 @@ def image_case(rng):
         blob = b"\xff" * n
     elif style < 0.5:
         blob = b"\x00" * n
-    elif style < 0.8:
-        # byte sum an exact non-zero multiple of 65535
-        k = rng.choice([1, 1, 2, 3])
-        target = 65535 * k
-        body = bytearray()
-        s = 0
-        while target - s > 255 and len(body) < 4000:
-            b = rng.choice([255, 255, rng.randint(0, 255)])
-            body.append(b)
-            s += b
-        if target - s <= 255:
-            body.append(target - s)
-            s = target
-        blob = bytes(body)
-        if rng.random() < 0.5:
-            body = list(blob)
-            rng.shuffle(body)
-            blob = bytes(body)
+    elif style < 0.85:
+        # byte sum at / next to a multiple of 65535 or 65536 (where carry folding goes wrong):
+        # k*65535, k*65536 and their neighbours, for every k the 4096-byte limit allows (k <= 15)
+        k = rng.choice([1, 1, 1, 2, 2, 3, rng.randint(1, 15)])
+        modulus = rng.choice([65535, 65535, 65536])
+        target = max(0, modulus * k + rng.choice([0, 0, 0, -1, -1, 1, -2, 2, -255, 255, rng.randint(-300, 300)]))
+        target = min(target, 4096 * 255)
+        blob = blob_with_sum(rng, target)
     else:
         blob = bytes(rng.choice([0, 0xFF, 0x55, 0xAA]) for _ in range(n))
     base = rng.choice([0, 0o1000, 0o40000, 0o100000, 0o177776, rng.randrange(0, 0o177777)])
@@ -115,6 +105,24 @@ def image_case(rng):
         stmts.insert(rng.randint(0, len(stmts)), gen.Stmt(text, "make", {"kind": kind, "path_arg": path_arg, "tape": tape}))
         prog.features.add(kind)
     return prog
+
+
+def blob_with_sum(rng, target):
+    """<= 4096 bytes whose plain byte sum is exactly `target` (<= 4096*255)."""
+    body = []
+    s = 0
+    room = 4096
+    while s < target:
+        left = target - s
+        # stay feasible: the remaining bytes must be able to carry what is left
+        lo = max(0, left - 255 * (room - 1))
+        hi = min(255, left)
+        b = hi if rng.random() < 0.6 else rng.randint(lo, hi)
+        body.append(b)
+        s += b
+        room -= 1
+    rng.shuffle(body)
+    return bytes(body)
 
 
 def make_case(rng):
